@@ -360,6 +360,10 @@ func load(cmdline, environ, envprefix []string, props *properties.Properties) (c
 		return nil, fmt.Errorf("invalid ui.access: %s", cfg.UI.Access)
 	}
 
+	if cfg.GlobCacheSize <= 0 {
+		return nil, fmt.Errorf("glob.cache.size must be greater than 0")
+	}
+
 	// go1.10 will not accept a non-three digit status code
 	if cfg.Proxy.NoRouteStatus < 100 || cfg.Proxy.NoRouteStatus > 999 {
 		return nil, fmt.Errorf("proxy.noroutestatus must be between 100 and 999")
